@@ -47,16 +47,14 @@ theorem compare_inv (a : CObj) (ih : CondIH a) : CondIH (.inv a) := by
   rw [bind_ok] at h; obtain ⟨pa, g1, hc, h⟩ := h
   rw [pure_ok] at h; cases h
   have A := ih (!neg) g g' pa hok hc
-  obtain ⟨seg0, hcode, hrest⟩ := A.code
+  obtain ⟨segf, hcode, hlen, hpatch, hrun⟩ := A.code
   have hown : pa.own = g.owners := by
     have := A.ownAll
     cases pa <;> simp only [Pend.OwnAll] at this <;> simp [Pend.own, this]
-  refine ⟨A.owners, A.stack, ⟨hown, A.ownAll⟩, seg0, hcode, ?_⟩
-  intro L hL
-  obtain ⟨seg, hl, hp, hrun⟩ := hrest L hL
-  refine ⟨seg, hl, fun pre rest hpre => by simpa [Pend.patch] using hp pre rest hpre, ?_⟩
-  intro σ
-  obtain ⟨σ', hj, hk⟩ := hrun σ
+  refine ⟨A.owners, A.stack, ⟨hown, A.ownAll⟩, segf, hcode, hlen,
+    fun m L pre rest hpre => by simpa [Pend.patch] using hpatch m L pre rest hpre, ?_⟩
+  intro L hL σ
+  obtain ⟨σ', hj, hk⟩ := hrun L hL σ
   refine ⟨σ', ?_, hk⟩
   have e : xor (CObj.mtruth (.inv a) σ) neg = xor (a.mtruth σ) (!neg) := by
     simp only [CObj.mtruth]; cases a.mtruth σ <;> cases neg <;> rfl
@@ -73,11 +71,11 @@ theorem compare_andor (isAnd : Bool) (a b : CObj) (iha : CondIH a) (ihb : CondIH
   rw [pure_ok] at h; cases h
   have A := iha isAnd g g1 pa hok.1 hca
   have B := ihb neg g1 g2 pb (by rw [A.owners]; exact hok.2) hcb
-  obtain ⟨seg0a, hcodea, hresta⟩ := A.code
-  obtain ⟨seg0b, hcodeb, hrestb⟩ := B.code
+  obtain ⟨sfa, hcodea, hlena, hpa, hruna⟩ := A.code
+  obtain ⟨sfb, hcodeb, hlenb, hpb, hrunb⟩ := B.code
   have ho2 : g2.owners = g.owners := by rw [B.owners, A.owners]
-  have hl1 : g1.code.length = g.code.length + seg0a.length := by rw [hcodea]; simp
-  have hl2 : g2.code.length = g1.code.length + seg0b.length := by rw [hcodeb]; simp
+  have hl1 : g1.code.length = g.code.length + (sfa none).length := by rw [hcodea]; simp
+  have hl2 : g2.code.length = g1.code.length + (sfb none).length := by rw [hcodeb]; simp
   have hBown : pb.OwnAll g.owners := by have := B.ownAll; rwa [A.owners] at this
   -- the machine-level truth of the right operand does not depend on what the left operand's code clobbered
   have hmb : ∀ σ σ1 : State, Keep g.owners σ σ1 → b.mtruth σ1 = b.mtruth σ :=
@@ -89,22 +87,18 @@ theorem compare_andor (isAnd : Bool) (a b : CObj) (iha : CondIH a) (ihb : CondIH
     simp only [Bool.false_eq_true, if_false] at htg
     rw [pure_ok] at htg; cases htg
     have hbe : (isAnd == neg) = true := by simp [hboth]
-    refine ⟨ho2, by rw [B.stack, A.stack], ⟨ho2, A.ownAll, hBown⟩, seg0a ++ seg0b,
-      by rw [hcodeb, hcodea, List.append_assoc], ?_⟩
-    intro L hL
-    obtain ⟨sega, hla, hpa, hruna⟩ := hresta L (by omega)
-    obtain ⟨segb, hlb, hpb, hrunb⟩ := hrestb L hL
-    refine ⟨sega ++ segb, by simp [hla, hlb], ?_, ?_⟩
-    · intro pre rest hpre
+    refine ⟨ho2, by rw [B.stack, A.stack], ⟨ho2, A.ownAll, hBown⟩, fun m => sfa m ++ sfb m,
+      by rw [hcodeb, hcodea, List.append_assoc], fun m => by simp [hlena m, hlenb m], ?_, ?_⟩
+    · intro m L pre rest hpre
       simp only [Pend.patch, hbe, if_true]
-      have e1 : pre ++ (seg0a ++ seg0b) ++ rest = pre ++ seg0a ++ (seg0b ++ rest) := by simp
-      rw [e1, hpa pre _ hpre]
-      have e2 : pre ++ sega ++ (seg0b ++ rest) = (pre ++ sega) ++ seg0b ++ rest := by simp
-      rw [e2, hpb (pre ++ sega) rest (by simp [hpre, hla, hl1])]
+      have e1 : pre ++ (sfa m ++ sfb m) ++ rest = pre ++ sfa m ++ (sfb m ++ rest) := by simp
+      rw [e1, hpa m L pre _ hpre]
+      have e2 : pre ++ sfa (some L) ++ (sfb m ++ rest) = (pre ++ sfa (some L)) ++ sfb m ++ rest := by simp
+      rw [e2, hpb m L (pre ++ sfa (some L)) rest (by simp [hpre, hlena, hl1])]
       simp
-    · intro σ
-      obtain ⟨σ1, hja, hka⟩ := hruna σ
-      obtain ⟨σ2, hjb, hkb⟩ := hrunb σ1
+    · intro L hL σ
+      obtain ⟨σ1, hja, hka⟩ := hruna L (by omega) σ
+      obtain ⟨σ2, hjb, hkb⟩ := hrunb L hL σ1
       rw [A.owners] at hkb
       rw [hmb σ σ1 hka] at hjb
       cases hta : xor (a.mtruth σ) isAnd with
@@ -123,7 +117,8 @@ theorem compare_andor (isAnd : Bool) (a b : CObj) (iha : CondIH a) (ihb : CondIH
           exact andor_both_fall _ _ _ hta
         rw [e]
         have := JumpRun.fall_append hja hjb
-        have e2 : sega.length + (L - g1.code.length) = L - g.code.length := by omega
+        have e2 : (sfa (some L)).length + (L - g1.code.length) = L - g.code.length := by
+          rw [hlena]; omega
         rw [e2] at this; exact this
   · -- the left operand's jumps are targeted at the end of the whole comparison code
     have hne : (isAnd != neg) = true := by simp [hboth]
@@ -132,15 +127,15 @@ theorem compare_andor (isAnd : Bool) (a b : CObj) (iha : CondIH a) (ihb : CondIH
     have hbe : (isAnd == neg) = false := by simp [hboth]
     obtain ⟨t1, t2, t3, _, _⟩ := target_ok pa false g2 pa' g' htg
     simp only [Bool.false_eq_true, if_false] at t3
-    obtain ⟨sega, hla, hpa, hruna⟩ := hresta g2.code.length (by omega)
-    have hcode3 : g'.code = g.code ++ (sega ++ seg0b) := by
-      rw [t1, hcodeb, hcodea]
-      have := hpa g.code seg0b rfl
-      rw [hcodeb, hcodea] at this
+    have hcode3 : g'.code = g.code ++ (sfa (some g2.code.length) ++ sfb none) := by
+      rw [t1]
+      have := hpa none g2.code.length g.code (sfb none) rfl
+      rw [hcodeb, hcodea] at this ⊢
       rw [this]; simp
     have ho3 : g'.owners = g.owners := by rw [t3, ho2]; exact interAll_self _ pa A.ownAll
     -- the stored owners of the re-built left object are irrelevant: it is not patched again
-    refine ⟨ho3, by rw [t2, B.stack, A.stack], ?_, sega ++ seg0b, hcode3, ?_⟩
+    refine ⟨ho3, by rw [t2, B.stack, A.stack], ?_, fun m => sfa (some g2.code.length) ++ sfb m, hcode3,
+      fun m => by simp [hlenb m], ?_, ?_⟩
     · refine ⟨ho3, ?_, hBown⟩
       -- `OwnAll` of the returned left object
       have : ∀ (q : Pend) (gg gg' : GenState) (q' : Pend), q.OwnAll g.owners → gg.owners = g.owners →
@@ -182,45 +177,46 @@ theorem compare_andor (isAnd : Bool) (a b : CObj) (iha : CondIH a) (ihb : CondIH
           obtain ⟨v1, v2⟩ := ih gg gg' v' hq.2 hgg hv
           exact ⟨⟨hq.1, v1⟩, v2⟩
       exact (this pa g2 g' pa' A.ownAll ho2 htg).1
-    · intro L hL
+    · intro m L pre rest hpre
+      simp only [Pend.patch, hbe, Bool.false_eq_true, if_false]
+      have e2 : pre ++ (sfa (some g2.code.length) ++ sfb m) ++ rest
+          = (pre ++ sfa (some g2.code.length)) ++ sfb m ++ rest := by simp
+      rw [e2, hpb m L (pre ++ sfa (some g2.code.length)) rest (by simp [hpre, hlena, hl1])]
+      simp
+    · intro L hL σ
       have hl3 : g'.code.length = g2.code.length := by rw [t1, patch_length]
-      obtain ⟨segb, hlb, hpb, hrunb⟩ := hrestb L (by omega)
-      refine ⟨sega ++ segb, by simp [hlb], ?_, ?_⟩
-      · intro pre rest hpre
-        simp only [Pend.patch, hbe, Bool.false_eq_true, if_false]
-        have e2 : pre ++ (sega ++ seg0b) ++ rest = (pre ++ sega) ++ seg0b ++ rest := by simp
-        rw [e2, hpb (pre ++ sega) rest (by simp [hpre, hla, hl1])]
-        simp
-      · intro σ
-        obtain ⟨σ1, hja, hka⟩ := hruna σ
-        obtain ⟨σ2, hjb, hkb⟩ := hrunb σ1
-        rw [A.owners] at hkb
-        rw [hmb σ σ1 hka] at hjb
-        have eend : g2.code.length - g.code.length = sega.length + segb.length := by omega
-        rw [eend] at hja
-        have hnn : neg = !isAnd := by
-          revert hboth; cases isAnd <;> cases neg <;> simp
-        cases hta : xor (a.mtruth σ) isAnd with
-        | true =>
-          rw [hta] at hja
-          refine ⟨σ1, ?_, hka⟩
-          have e : xor (CObj.mtruth (.andor isAnd a b) σ) neg = false := by
-            simp only [CObj.mtruth]; rw [hnn]
-            exact andor_end_taken _ _ _ hta
-          rw [e]
-          have h1 : JumpRun (sega ++ segb) (sega ++ segb).length σ σ1 true := by
-            simpa using JumpRun.taken_append (b := segb) hja
-          exact h1.to_end
-        | false =>
-          rw [hta] at hja
-          refine ⟨σ2, ?_, hka.trans hkb⟩
-          have e : xor (CObj.mtruth (.andor isAnd a b) σ) neg = xor (b.mtruth σ) neg := by
-            simp only [CObj.mtruth]; rw [hnn]
-            exact andor_end_fall _ _ _ hta
-          rw [e]
-          have := JumpRun.fall_append hja hjb
-          have e2 : sega.length + (L - g1.code.length) = L - g.code.length := by omega
-          rw [e2] at this; exact this
+      obtain ⟨σ1, hja, hka⟩ := hruna g2.code.length (by omega) σ
+      obtain ⟨σ2, hjb, hkb⟩ := hrunb L (by omega) σ1
+      rw [A.owners] at hkb
+      rw [hmb σ σ1 hka] at hjb
+      have eend : g2.code.length - g.code.length = (sfa (some g2.code.length)).length + (sfb (some L)).length := by
+        rw [hlena, hlenb]; omega
+      rw [eend] at hja
+      have hnn : neg = !isAnd := by
+        revert hboth; cases isAnd <;> cases neg <;> simp
+      cases hta : xor (a.mtruth σ) isAnd with
+      | true =>
+        rw [hta] at hja
+        refine ⟨σ1, ?_, hka⟩
+        have e : xor (CObj.mtruth (.andor isAnd a b) σ) neg = false := by
+          simp only [CObj.mtruth]; rw [hnn]
+          exact andor_end_taken _ _ _ hta
+        rw [e]
+        have h1 : JumpRun (sfa (some g2.code.length) ++ sfb (some L))
+            (sfa (some g2.code.length) ++ sfb (some L)).length σ σ1 true := by
+          simpa using JumpRun.taken_append (b := sfb (some L)) hja
+        exact h1.to_end
+      | false =>
+        rw [hta] at hja
+        refine ⟨σ2, ?_, hka.trans hkb⟩
+        have e : xor (CObj.mtruth (.andor isAnd a b) σ) neg = xor (b.mtruth σ) neg := by
+          simp only [CObj.mtruth]; rw [hnn]
+          exact andor_end_fall _ _ _ hta
+        rw [e]
+        have := JumpRun.fall_append hja hjb
+        have e2 : (sfa (some g2.code.length)).length + (L - g1.code.length) = L - g.code.length := by
+          rw [hlena]; omega
+        rw [e2] at this; exact this
 
 /-- **cond_correct** (machine level): for every comparison object whose atoms satisfy `AtomOk`, every sense and
 every generator state, the code `compare` appends — with its placeholders patched by `target` for any position
